@@ -23,6 +23,7 @@ RULE = ("part A (histories): a class tree (parent, child, nested, Self-recursive
 ASSUMPTIONS = ["dialect pool is finite; twin families are rebuilt from the same source text",
                "keyword flags other than ADD_DIALECT_SUPPORT are left to C08 (finding F25)"]
 BUDGET_S = {"quick": 150, "thorough": 1200}
+CASES_PER_PROCESS = {"quick": 400, "thorough": 500}
 MIN_EVENTS = {"quick": {"evaluations": 15000, "history_agree": 8000, "codec_agree": 3000, "merge_contract_evaluations": 500},
               "thorough": {"evaluations": 500000, "history_agree": 250000, "codec_agree": 100000, "merge_contract_evaluations": 15000}}
 
